@@ -61,7 +61,7 @@ def gen_cases(tier, seed):
             yield {"kind": "model", "fmt": fmt, "seed": r.randrange(1 << 30), "model": GM.MODEL_NAMES[i % len(GM.MODEL_NAMES)], "target": "file" if (fmt == "excel" or i % 3 == 0) else "string"}
         for i in range(10 if tier == "quick" else 400):
             yield {"kind": "base", "fmt": fmt, "seed": r.randrange(1 << 30), "target": "file" if (fmt == "excel" or i % 2 == 0) else "string"}
-        for i in range(6 if tier == "quick" else 200):
+        for i in range((16 if fmt == "csv" else 6) if tier == "quick" else 200):
             yield {"kind": "probe", "fmt": fmt, "seed": r.randrange(1 << 30)}
 
 
@@ -72,7 +72,9 @@ def run_case(case, ctx):
 
 # ------------------------------------------------------------------ domain metadata
 
-DOMAIN_TEXT = ["plain", "with space", "ünïcödé-θ", "a/b", "MiXeD Case", "x" * 30, "dash-and_underscore", "2nd batch", "v1.2.3b"]
+DOMAIN_TEXT = ["plain", "with space", "ünïcödé-θ", "a/b", "MiXeD Case", "x" * 30, "dash-and_underscore", "2nd batch", "v1.2.3b",
+               # very short texts (element symbols, flags): plain text like any other, however close to the spelling of a keyword
+               "Ne", "no", "on", "one", "N", "O", "E", "non", "yes", "off", "e", "Na", "He", "x", "nul", "fals", "tru"]
 
 
 def domain_metadata(r, fmt):
@@ -117,7 +119,7 @@ PROBES = ["", " padded ", "comma,inside", "quote'inside", "3", "3.0", "1e5", "Tr
 _PATHS = [0]
 
 
-def _export_import(fmt, iso, target, tag):
+def _export_import(fmt, iso, target, tag, sepkw=None):
     """Returns (outcome, isotherm-or-exception, stage)."""
     from pygaps.parsing.aif import isotherm_from_aif
     from pygaps.parsing.aif import isotherm_to_aif
@@ -132,7 +134,7 @@ def _export_import(fmt, iso, target, tag):
     try:
         try:
             if fmt == "csv":
-                payload = isotherm_to_csv(iso, path if target == "file" else None)
+                payload = isotherm_to_csv(iso, path if target == "file" else None, **(sepkw or {}))
             elif fmt == "excel":
                 payload = isotherm_to_xl(iso, path)
             else:
@@ -142,7 +144,7 @@ def _export_import(fmt, iso, target, tag):
         src = path if (target == "file" or fmt == "excel") else payload
         try:
             if fmt == "csv":
-                back = isotherm_from_csv(src)
+                back = isotherm_from_csv(src, **(sepkw or {}))
             elif fmt == "excel":
                 back = isotherm_from_xl(src)
             else:
@@ -439,6 +441,35 @@ def _run_probe(case, ctx):
             same = (got == v and type(got) is type(v)) or (isinstance(v, float) and isinstance(got, float) and math.isnan(v) and math.isnan(got))
             out = "preserved" if same else "silently changed to %r" % (got, )
         ctx.count("out_of_domain_probes", "%s: %r -> %s" % (fmt, v, out))
+    if fmt == "csv":
+        _run_separator_probe(case, ctx, r)
+
+
+def _run_separator_probe(case, ctx, r):
+    """Text that contains the separator in use is the one out-of-domain class the CSV reader has a refusal mechanism for
+    ("more than two values"): wherever the separator sits, the value is refused with a pyGAPS error or comes back as it was
+    - a verdict, unlike the tabulated probes above."""
+    for sep in (",", ";"):
+        texts = ["a%sb" % sep, "%slead" % sep, "trail%s" % sep, "trail%s%s" % (sep, sep), "see tables 1 and 2%s" % sep, "a%s%sb" % (sep, sep), "x%s " % sep]
+        v = r.choice(texts)
+        where = r.choice(["metadata", "material-property"])
+        spec = gen.point_spec(r, n=3, units=None, extras=False, meta={"probe": v} if where == "metadata" else {}, material_props={"probe": v} if where != "metadata" else None)
+        try:
+            iso = gen.build_base(spec)
+        except Exception:
+            continue
+        target = r.choice(["file", "string"])
+        st, back, stage = _export_import("csv", iso, target, "csv-s%d" % case["seed"], sepkw={"separator": sep})
+        ctx.case(["csv", "separator-probe", sep, v, where, target])
+        if st != "ok":
+            if not _is_pg_error(back):
+                ctx.violation("csv/separator-text/refused-with-foreign-error", "text containing the separator is refused, but not with a pyGAPS error", sep=sep, value=v, where=where, exc=back, stage=stage)
+            ctx.count("separator_probes", "%r %s: refused" % (sep, where))
+            continue
+        got = (back.properties if where == "metadata" else back.material.properties).get("probe", "<missing>")
+        if got != v or type(got) is not str:
+            ctx.violation("csv/separator-text/silently-changed", "text containing the separator was neither refused nor preserved", sep=sep, value=v, got=got, where=where, target=target)
+        ctx.count("separator_probes", "%r %s: preserved" % (sep, where))
 
 
 def finalize(ctx):
